@@ -410,4 +410,290 @@ example (h5 : Dec.ofString? "0.5" = some ⟨HALF⟩) (h6 : Dec.ofString? "0.5000
 example : Reachable (run { epochBlocks := 3 } [.addPool 0, .addPool 1]) :=
   Reachable.step _ (Reachable.step _ (Reachable.init 3))
 
+/-! ## epochs_contiguous -/
+
+def Shape (es : List Epoch) : Prop :=
+  es = [] ∨ (∃ e, es = [e]) ∨ (∃ e1 e2, es = [e1, e2] ∧ e2.id = e1.id + 1)
+
+/-- stored epochs: none, one, or two with consecutive ids; every epoch's gauges carry `prev = id − 1`; every gauge in
+    the gauge store belongs (by key) to a STORED epoch — i.e. nothing is kept for a pruned epoch -/
+structure EpochsOK (s : St) : Prop where
+  shape : Shape s.epochs
+  own : ∀ e ∈ s.epochs, ∀ g ∈ e.gauges, g.prev + 1 = e.id
+  stored : ∀ g ∈ s.gauges, ∃ e ∈ s.epochs, ∃ g' ∈ e.gauges, g'.prev = g.prev ∧ g'.pool = g.pool
+
+theorem setGauge_mem (gs : List GaugeRec) (g x : GaugeRec) (h : x ∈ setGauge gs g) : x = g ∨ x ∈ gs := by
+  induction gs with
+  | nil => simp [setGauge] at h; exact Or.inl h
+  | cons y t ih =>
+    unfold setGauge at h
+    by_cases h1 : g.prev < y.prev ∨ (g.prev = y.prev ∧ g.pool < y.pool)
+    · simp only [h1, if_true] at h
+      rcases List.mem_cons.mp h with h | h
+      · exact Or.inl h
+      · exact Or.inr h
+    · simp only [h1, if_false] at h
+      by_cases h2 : g.prev = y.prev ∧ g.pool = y.pool
+      · simp only [h2, and_self, if_true] at h
+        rcases List.mem_cons.mp h with h | h
+        · exact Or.inl h
+        · exact Or.inr (List.mem_cons_of_mem _ h)
+      · simp only [h2, if_false] at h
+        rcases List.mem_cons.mp h with h | h
+        · exact Or.inr (by rw [h]; exact List.mem_cons_self)
+        · rcases ih h with h | h
+          · exact Or.inl h
+          · exact Or.inr (List.mem_cons_of_mem _ h)
+
+theorem foldl_setGauge_mem (new : List GaugeRec) : ∀ (gs : List GaugeRec) (x : GaugeRec),
+    x ∈ new.foldl setGauge gs → x ∈ gs ∨ x ∈ new := by
+  induction new with
+  | nil => intro gs x h; exact Or.inl h
+  | cons g t ih =>
+    intro gs x h
+    simp only [List.foldl_cons] at h
+    rcases ih _ _ h with h | h
+    · rcases setGauge_mem _ _ _ h with h | h
+      · exact Or.inr (by rw [h]; exact List.mem_cons_self)
+      · exact Or.inl h
+    · exact Or.inr (List.mem_cons_of_mem _ h)
+
+theorem foldl_removeGauge_mem (rm : List GaugeRec) : ∀ (gs : List GaugeRec) (x : GaugeRec),
+    x ∈ rm.foldl (fun gs g => removeGauge gs g.prev g.pool) gs →
+    x ∈ gs ∧ ∀ g ∈ rm, ¬ (x.prev = g.prev ∧ x.pool = g.pool) := by
+  induction rm with
+  | nil => intro gs x h; exact ⟨h, by simp⟩
+  | cons g t ih =>
+    intro gs x h
+    simp only [List.foldl_cons] at h
+    obtain ⟨h1, h2⟩ := ih _ _ h
+    unfold removeGauge at h1
+    rw [List.mem_filter] at h1
+    refine ⟨h1.1, ?_⟩
+    intro g' hg'
+    rcases List.mem_cons.mp hg' with rfl | hg'
+    · intro hc; have h12 := h1.2; simp [hc.1, hc.2] at h12
+    · exact h2 g' hg'
+
+theorem prune_small (s : St) (h : s.epochs.length ≤ 2) : prune s = s := by
+  unfold prune
+  have : ¬ s.epochs.length > 2 := by omega
+  simp [this]
+
+/-- CreateEpoch appends the epoch `last.id + 1` (or the first epoch) — or changes nothing -/
+theorem endBlocker_epochsOK {s s' : St} {h : Int} {stk : Staking} (hs : EpochsOK s)
+    (he : endBlocker s h stk = .ok s') : EpochsOK s' := by
+  obtain ⟨hshape, hown, hstored⟩ := hs
+  unfold endBlocker at he
+  rcases hshape with h0 | ⟨e0, h1⟩ | ⟨e1, e2, h2, hid⟩
+  · -- no epoch yet
+    simp only [h0, lastEpoch, List.getLast?_nil] at he
+    cases hc : createEpoch s h stk 0 1 with
+    | err e => simp only [hc, Res.ok.injEq] at he; subst he; exact ⟨Or.inl h0, hown, hstored⟩
+    | panic k => simp [hc] at he
+    | ok s1 =>
+      simp only [hc, Res.ok.injEq] at he
+      subst he
+      rcases createEpoch_cases hc with hsame | ⟨r, hnew⟩
+      · rw [hsame]; exact ⟨Or.inl h0, hown, hstored⟩
+      · rw [hnew]
+        refine ⟨Or.inr (Or.inl ?_), ?_, ?_⟩
+        · simp only [h0, setEpoch]; exact ⟨_, rfl⟩
+        · intro e hem g hg
+          simp only [h0, setEpoch, List.mem_singleton] at hem
+          subst hem
+          simp only [List.mem_map] at hg
+          obtain ⟨r0, _, rfl⟩ := hg
+          rfl
+        · intro g hg
+          simp only [h0, setEpoch] at hg ⊢
+          rcases foldl_setGauge_mem _ _ _ hg with hg | hg
+          · obtain ⟨e, hem, _⟩ := hstored g hg
+            rw [h0] at hem; simp at hem
+          · exact ⟨_, List.mem_singleton.mpr rfl, g, hg, rfl, rfl⟩
+  · -- one epoch stored
+    simp only [h1, lastEpoch, List.getLast?_singleton] at he
+    by_cases hh : h ≥ e0.endBlock
+    · simp only [hh, if_true] at he
+      cases hc : createEpoch s h stk e0.id (e0.id + 1) with
+      | err e => simp only [hc, Res.ok.injEq] at he; subst he; exact ⟨Or.inr (Or.inl ⟨e0, h1⟩), hown, hstored⟩
+      | panic k => simp [hc] at he
+      | ok s1 =>
+        simp only [hc, Res.ok.injEq] at he
+        subst he
+        rcases createEpoch_cases hc with hsame | ⟨r, hnew⟩
+        · rw [hsame, prune_small s (by simp [h1])]; exact ⟨Or.inr (Or.inl ⟨e0, h1⟩), hown, hstored⟩
+        · have hse : setEpoch s.epochs ⟨e0.id + 1, h, h + s.epochBlocks, r.map fun r => (⟨e0.id, r.1, r.2⟩ : GaugeRec)⟩
+              = [e0, ⟨e0.id + 1, h, h + s.epochBlocks, r.map fun r => (⟨e0.id, r.1, r.2⟩ : GaugeRec)⟩] := by
+            simp [h1, setEpoch]
+          rw [hnew, prune_small _ (by simp only [hse]; simp)]
+          simp only [hse]
+          refine ⟨Or.inr (Or.inr ⟨_, _, rfl, rfl⟩), ?_, ?_⟩
+          · intro e hem g hg
+            rcases List.mem_cons.mp hem with rfl | hem
+            · exact hown e (by rw [h1]; exact List.mem_singleton.mpr rfl) g hg
+            · rw [List.mem_singleton] at hem
+              subst hem
+              simp only [List.mem_map] at hg
+              obtain ⟨r0, _, rfl⟩ := hg
+              rfl
+          · intro g hg
+            rcases foldl_setGauge_mem _ _ _ hg with hg | hg
+            · obtain ⟨e, hem, g', hg', hk⟩ := hstored g hg
+              rw [h1, List.mem_singleton] at hem
+              subst hem
+              exact ⟨e, List.mem_cons_self, g', hg', hk⟩
+            · exact ⟨_, List.mem_cons_of_mem _ (List.mem_singleton.mpr rfl), g, hg, rfl, rfl⟩
+    · simp only [hh, if_false, Res.ok.injEq] at he; subst he; exact ⟨Or.inr (Or.inl ⟨e0, h1⟩), hown, hstored⟩
+  · -- two epochs stored: the new one is appended and the oldest pruned together with its gauges
+    simp only [h2, lastEpoch, List.getLast?_cons_cons, List.getLast?_singleton] at he
+    by_cases hh : h ≥ e2.endBlock
+    · simp only [hh, if_true] at he
+      cases hc : createEpoch s h stk e2.id (e2.id + 1) with
+      | err e => simp only [hc, Res.ok.injEq] at he; subst he; exact ⟨Or.inr (Or.inr ⟨e1, e2, h2, hid⟩), hown, hstored⟩
+      | panic k => simp [hc] at he
+      | ok s1 =>
+        simp only [hc, Res.ok.injEq] at he
+        subst he
+        rcases createEpoch_cases hc with hsame | ⟨r, hnew⟩
+        · rw [hsame, prune_small s (by simp [h2])]; exact ⟨Or.inr (Or.inr ⟨e1, e2, h2, hid⟩), hown, hstored⟩
+        · have hlt1 : ¬ (e2.id + 1 < e1.id) := by omega
+          have hne1 : ¬ (e2.id + 1 = e1.id) := by omega
+          have hlt2 : ¬ (e2.id + 1 < e2.id) := by omega
+          have hne2 : ¬ (e2.id + 1 = e2.id) := by omega
+          have hse : setEpoch s.epochs ⟨e2.id + 1, h, h + s.epochBlocks, r.map fun r => (⟨e2.id, r.1, r.2⟩ : GaugeRec)⟩
+              = [e1, e2, ⟨e2.id + 1, h, h + s.epochBlocks, r.map fun r => (⟨e2.id, r.1, r.2⟩ : GaugeRec)⟩] := by
+            simp [h2, setEpoch, hlt1, hne1, hlt2, hne2]
+          rw [hnew]
+          unfold prune
+          simp only [hse, List.length_cons, List.length_nil]
+          have hk1 : ¬ (e2.id = e1.id) := by omega
+          have hk2 : ¬ (e2.id + 1 = e1.id) := by omega
+          simp only [show (0 + 1 + 1 + 1 > 2) from by decide, if_true, removeEpoch, List.filter, hk1, hk2,
+            decide_true, decide_false, Bool.not_true, Bool.not_false]
+          refine ⟨Or.inr (Or.inr ⟨_, _, rfl, rfl⟩), ?_, ?_⟩
+          · intro e hem g hg
+            rcases List.mem_cons.mp hem with rfl | hem
+            · exact hown e (by rw [h2]; simp) g hg
+            · rw [List.mem_singleton] at hem
+              subst hem
+              simp only [List.mem_map] at hg
+              obtain ⟨r0, _, rfl⟩ := hg
+              rfl
+          · intro g hg
+            obtain ⟨hg1, hg2⟩ := foldl_removeGauge_mem _ _ _ hg
+            rcases foldl_setGauge_mem _ _ _ hg1 with hg1 | hg1
+            · obtain ⟨e, hem, g', hg', hk⟩ := hstored g hg1
+              rw [h2] at hem
+              rcases List.mem_cons.mp hem with rfl | hem
+              · exact absurd ⟨hk.1.symm, hk.2.symm⟩ (hg2 g' hg')
+              · rw [List.mem_singleton] at hem
+                subst hem
+                exact ⟨e, List.mem_cons_self, g', hg', hk⟩
+            · exact ⟨_, List.mem_cons_of_mem _ (List.mem_singleton.mpr rfl), g, hg1, rfl, rfl⟩
+    · simp only [hh, if_false, Res.ok.injEq] at he; subst he; exact ⟨Or.inr (Or.inr ⟨e1, e2, h2, hid⟩), hown, hstored⟩
+
+theorem step_epochsOK (s : St) (op : Op) (hs : EpochsOK s) : EpochsOK (step s op).1 := by
+  cases op with
+  | addPool id => exact ⟨hs.shape, hs.own, hs.stored⟩
+  | vote a okS ws =>
+    simp only [step]
+    cases voteGauge s.pools s.votes okS a ws with
+    | ok vs => exact ⟨hs.shape, hs.own, hs.stored⟩
+    | err e => exact hs
+    | panic k => exact hs
+  | block h fc oks stk =>
+    rcases step_block_cases s h fc oks stk with h0 | ⟨s1, ⟨_, he, hg⟩, h1 | h1 | h1⟩
+    · rw [h0]; exact hs
+    · obtain ⟨s2, hend, h2⟩ := h1
+      rw [h2]
+      exact endBlocker_epochsOK (s := s1) ⟨by rw [he]; exact hs.shape, by rw [he]; exact hs.own, by rw [he, hg]; exact hs.stored⟩ hend
+    · rw [h1]; exact ⟨by rw [he]; exact hs.shape, by rw [he]; exact hs.own, by rw [he, hg]; exact hs.stored⟩
+    · rw [h1]; exact ⟨by rw [he]; exact hs.shape, by rw [he]; exact hs.own, by rw [he, hg]; exact hs.stored⟩
+
+/-- epochs_contiguous: in every reachable state at most two epochs are stored, their ids are consecutive, and the gauge
+    store holds gauges of stored epochs only (the gauges of a pruned epoch are gone) -/
+theorem epochs_contiguous {s : St} (hr : Reachable s) : EpochsOK s := by
+  induction hr with
+  | init eb => exact ⟨Or.inl rfl, by intro e he; simp at he, by intro g hg; simp at hg⟩
+  | step op _ ih => exact step_epochsOK _ op ih
+
+/-- corollaries in plain terms -/
+theorem epochs_at_most_two {s : St} (hr : Reachable s) : s.epochs.length ≤ 2 := by
+  rcases (epochs_contiguous hr).shape with h | ⟨e, h⟩ | ⟨e1, e2, h, _⟩ <;> simp [h]
+
+theorem gauges_only_for_stored_epochs {s : St} (hr : Reachable s) :
+    ∀ g ∈ s.gauges, ∃ e ∈ s.epochs, g.prev + 1 = e.id := by
+  intro g hg
+  obtain ⟨e, he, g', hg', hk⟩ := (epochs_contiguous hr).stored g hg
+  exact ⟨e, he, by rw [← hk.1]; exact (epochs_contiguous hr).own e he g' hg'⟩
+
+/-- a block creates at most one epoch and its id is the previous last id + 1 (first epoch: 1); otherwise the last
+    epoch is unchanged -/
+theorem epoch_ids_increase (s s' : St) (h : Int) (stk : Staking) (hs : EpochsOK s)
+    (he : endBlocker s h stk = .ok s') :
+    lastEpoch s'.epochs = lastEpoch s.epochs ∨
+    ∃ e', lastEpoch s'.epochs = some e' ∧ e'.startBlock = h ∧ e'.endBlock = h + s.epochBlocks ∧
+      e'.id = (match lastEpoch s.epochs with | none => 1 | some e => e.id + 1) ∧
+      (∀ e, lastEpoch s.epochs = some e → h ≥ e.endBlock) := by
+  obtain ⟨hshape, hown, hstored⟩ := hs
+  unfold endBlocker at he
+  rcases hshape with h0 | ⟨e0, h1⟩ | ⟨e1, e2, h2, hid⟩
+  · simp only [h0, lastEpoch, List.getLast?_nil] at he ⊢
+    cases hc : createEpoch s h stk 0 1 with
+    | err e => simp only [hc, Res.ok.injEq] at he; subst he; exact Or.inl (by rw [h0]; rfl)
+    | panic k => simp [hc] at he
+    | ok s1 =>
+      simp only [hc, Res.ok.injEq] at he
+      subst he
+      rcases createEpoch_cases hc with hsame | ⟨r, hnew⟩
+      · rw [hsame]; exact Or.inl (by rw [h0]; rfl)
+      · rw [hnew]; simp only [h0, setEpoch, List.getLast?_singleton]
+        exact Or.inr ⟨_, rfl, rfl, rfl, rfl, by intro e he; cases he⟩
+  · simp only [h1, lastEpoch, List.getLast?_singleton] at he ⊢
+    by_cases hh : h ≥ e0.endBlock
+    · simp only [hh, if_true] at he
+      cases hc : createEpoch s h stk e0.id (e0.id + 1) with
+      | err e => simp only [hc, Res.ok.injEq] at he; subst he; exact Or.inl (by rw [h1]; rfl)
+      | panic k => simp [hc] at he
+      | ok s1 =>
+        simp only [hc, Res.ok.injEq] at he
+        subst he
+        rcases createEpoch_cases hc with hsame | ⟨r, hnew⟩
+        · rw [hsame, prune_small s (by simp [h1])]; exact Or.inl (by rw [h1]; rfl)
+        · have hse : setEpoch s.epochs ⟨e0.id + 1, h, h + s.epochBlocks, r.map fun r => (⟨e0.id, r.1, r.2⟩ : GaugeRec)⟩
+              = [e0, ⟨e0.id + 1, h, h + s.epochBlocks, r.map fun r => (⟨e0.id, r.1, r.2⟩ : GaugeRec)⟩] := by
+            simp [h1, setEpoch]
+          rw [hnew, prune_small _ (by simp only [hse]; simp)]
+          simp only [hse, List.getLast?_cons_cons, List.getLast?_singleton]
+          exact Or.inr ⟨_, rfl, rfl, rfl, rfl, by intro e he; cases he; exact hh⟩
+    · simp only [hh, if_false, Res.ok.injEq] at he; subst he; exact Or.inl (by rw [h1]; rfl)
+  · simp only [h2, lastEpoch, List.getLast?_cons_cons, List.getLast?_singleton] at he ⊢
+    by_cases hh : h ≥ e2.endBlock
+    · simp only [hh, if_true] at he
+      cases hc : createEpoch s h stk e2.id (e2.id + 1) with
+      | err e => simp only [hc, Res.ok.injEq] at he; subst he; exact Or.inl (by rw [h2]; rfl)
+      | panic k => simp [hc] at he
+      | ok s1 =>
+        simp only [hc, Res.ok.injEq] at he
+        subst he
+        rcases createEpoch_cases hc with hsame | ⟨r, hnew⟩
+        · rw [hsame, prune_small s (by simp [h2])]; exact Or.inl (by rw [h2]; rfl)
+        · have hlt1 : ¬ (e2.id + 1 < e1.id) := by omega
+          have hne1 : ¬ (e2.id + 1 = e1.id) := by omega
+          have hlt2 : ¬ (e2.id + 1 < e2.id) := by omega
+          have hne2 : ¬ (e2.id + 1 = e2.id) := by omega
+          have hse : setEpoch s.epochs ⟨e2.id + 1, h, h + s.epochBlocks, r.map fun r => (⟨e2.id, r.1, r.2⟩ : GaugeRec)⟩
+              = [e1, e2, ⟨e2.id + 1, h, h + s.epochBlocks, r.map fun r => (⟨e2.id, r.1, r.2⟩ : GaugeRec)⟩] := by
+            simp [h2, setEpoch, hlt1, hne1, hlt2, hne2]
+          rw [hnew]
+          unfold prune
+          simp only [hse, List.length_cons, List.length_nil]
+          have hk1 : ¬ (e2.id = e1.id) := by omega
+          have hk2 : ¬ (e2.id + 1 = e1.id) := by omega
+          simp only [show (0 + 1 + 1 + 1 > 2) from by decide, if_true, removeEpoch, List.filter, hk1, hk2,
+            decide_true, decide_false, Bool.not_true, Bool.not_false, List.getLast?_cons_cons, List.getLast?_singleton]
+          exact Or.inr ⟨_, rfl, rfl, rfl, rfl, by intro e he; cases he; exact hh⟩
+    · simp only [hh, if_false, Res.ok.injEq] at he; subst he; exact Or.inl (by rw [h2]; rfl)
+
 end Sunrise.C17
